@@ -8,9 +8,9 @@ from harness.common import Ck, coq_Z_list, coq_list
 from translate import c08_sites
 
 MANIFEST = dict(
-    technique='Rocq proof (allocator refinement to a finite set, lifecycle NoDup invariants by induction over histories of several maps incl. copy/parse/collapse, nested Entity/Solid/Side world with bundled events incl. collapse_one and VMF.parse as a program read from the source, nav-node ID lifecycle in one and several maps, fixup indexes over whole histories) + ast site censuses with semantic normalisation + vm_compute correspondences',
-    text='Theorems in Props/C08.v: the IDMan scan terminates and returns a positive unused ID keeping the search_pos invariant; from every invariant state IDMan is observationally equal to a plain finite set that hands out the desired ID if positive and free, else the least free positive ID (search_pos is unobservable); for every history over any number of maps of construction with arbitrary desired IDs, copy() within and across maps, removal, re-adding, destruction, VMF.parse of documents with colliding/missing/non-positive IDs and collapse_one, the existing objects of one kind that belong to one map have pairwise distinct positive IDs, provided IDs are released only by destructors and every copy site passes the destination map down; the same for entities, their brushes and the faces of those as ONE world whose events are the bundles of constructor/copy/remove/destructor calls made for a top-level object and its parts (order and desired IDs of the nested calls are part of the model), VMF.parse of any document being one such event: the steps of VMF.parse that touch these IDs (placeholder worldspawn of the constructor, world block, re-binding of map.spawn = the moment the destructor of the placeholder runs under CPython reference counting, entity blocks) are read off its body on every run and interpreted by the model, and the theorem holds for every such program that contains no explicit release -- so parse-then-allocate histories are covered, and a parse that hands the ID of the placeholder back itself is refuted by a computed witness (entity IDs 1, 1); nav-node IDs held by existing entities are distinct and positive after every history of key set/delete/copy/remove/re-add/destroy provided remove_ent does not release them and copies register their node ID, in one map and over several maps incl. cross-map copies, IDs reserved by Instance.fixup_key and collapse_one of node entities (copy all, then reserve and reassign every copied node ID); replaceNN indexes of one entity are distinct and positive after the constructor on any list and every sequence of set/setdefault/update, del/pop, clear, rebuild by Entity.copy and copy/deepcopy/pickle. The premises (release sites, ID stores, map argument of every constructor/copy call inside copy() methods and collapse_one, every write into Entity._keys and into the fixup index table, node-ID shapes, fixup acceptance test / deferral / start index, hint guard, the program of VMF.parse, the map argument of every constructor call in helpers such as make_prism, the manager class chosen when preserve_ids is false) are regenerated from the source on every run by a fail-closed translator that normalises names, test spellings, branch order, single-use locals, helper functions and loop forms, and are kernel-checked; IDMan, EntityFixup histories, the entity lifecycle, three-map histories of entities/brushes/faces/brush groups/visgroups (per kind and as bundled events), node-ID histories in one map and over three maps (with the real collapse_one) and VMF.parse results are compared with the models on random inputs (exact IDs); histories over all ID kinds including collapse_one (visgroup False / True / a VisGroup), make_prism / make_hollow and maps that start as parsed documents (world id 1, small colliding IDs) are searched on real VMF objects, the worldspawn included in every entity scan, with a full gc.collect() at every step boundary.',
-    note='Trusted: Coq kernel + vm_compute, translate/c08_sites.py, c08_keys.py, c08_norm.py (which call sites matter: copy() methods of the five ID classes and collapse_one; other functions that build objects from a foreign map are not in the census), hand models SM/IdMan.v, SM/IdLife.v, SM/IdFixupHist.v, SM/IdWorld.v, SM/IdNest.v, SM/IdNode.v, SM/IdNodeMaps.v (tied by differential runs), CPython refcount/gc for __del__ timing (observed, not assumed, for the placeholder worldspawn of VMF.parse: weak references record at which constructor call it is gone; a full collection runs at every step boundary of the histories). Brush groups and visgroups are independent single-kind models (each class uses the manager of its kind: census obligation); their IDs are never released (no destructor: leak, modelled as such). collapse_one is an event of the nested model (which brushes and entities it copies, in which order, is computed by the model and compared with the real function; hidden objects, visgroup handling and the keyvalue rewriting are searched, not modelled). Node IDs reserved by Instance.fixup_key are never released (a leak; modelled as the events NReserve / MReserve and compared). In the several-maps node model a nodeid key is a node ID for the entity classes whose FGD type says so (the correspondence sets it on info_node only). The deprecated Entity.keys dict (returned by reference) and a table handed to EntityFixup.__setstate__ bypass the censuses (listed as exposures). Maps opened with preserve_ids=True are exempt by definition: they use NullIDMan, which hands desired IDs out without looking; C08 assumes NullIDMan is used for nothing else, and the census obligation maps_get_idman_unless_preserve_ids checks that VMF.__init__ gives all six managers the class IDMan when preserve_ids is false, that it defaults to False in VMF.__init__ and VMF.parse and that parse hands its parameter on. A stage in which the implementation loops or raises ends as a VIOLATION with the stage and seed as replay (alarm timer around every stage).',
+    technique='Rocq proof (allocator refinement to a finite set, lifecycle NoDup invariants by induction over histories of several maps incl. copy/parse/collapse, nested Entity/Solid/Side world with bundled events incl. collapse_one and VMF.parse as a program read from the source, nav-node ID lifecycle in one and several maps, fixup indexes over whole histories, constructors that raise half-way as step lists read from the source incl. the attrs-generated __init__) + ast site censuses with semantic normalisation + vm_compute correspondences',
+    text='Theorems in Props/C08.v: the IDMan scan terminates and returns a positive unused ID keeping the search_pos invariant; from every invariant state IDMan is observationally equal to a plain finite set that hands out the desired ID if positive and free, else the least free positive ID (search_pos is unobservable); for every history over any number of maps of construction with arbitrary desired IDs, copy() within and across maps, removal, re-adding, destruction, VMF.parse of documents with colliding/missing/non-positive IDs and collapse_one, the existing objects of one kind that belong to one map have pairwise distinct positive IDs, provided IDs are released only by destructors and every copy site passes the destination map down; the same for entities, their brushes and the faces of those as ONE world whose events are the bundles of constructor/copy/remove/destructor calls made for a top-level object and its parts (order and desired IDs of the nested calls are part of the model), VMF.parse of any document being one such event: the steps of VMF.parse that touch these IDs (placeholder worldspawn of the constructor, world block, re-binding of map.spawn = the moment the destructor of the placeholder runs under CPython reference counting, entity blocks) are read off its body on every run and interpreted by the model, and the theorem holds for every such program that contains no explicit release -- so parse-then-allocate histories are covered, and a parse that hands the ID of the placeholder back itself is refuted by a computed witness (entity IDs 1, 1); nav-node IDs held by existing entities are distinct and positive after every history of key set/delete/copy/remove/re-add/destroy provided remove_ent does not release them and copies register their node ID, in one map and over several maps incl. cross-map copies, IDs reserved by Instance.fixup_key and collapse_one of node entities (copy all, then reserve and reassign every copied node ID); replaceNN indexes of one entity are distinct and positive after the constructor on any list and every sequence of set/setdefault/update, del/pop, clear, rebuild by Entity.copy and copy/deepcopy/pickle. Constructor calls that FAIL: the constructor of every ID-bearing class is read off the source as a step list (for attrs classes the generated __init__: one store per field in declaration order, converters and factories inside the stores, validators after them, then __attrs_post_init__; self.id = <requested value> is a raw store, self.id = <manager>.get_id(..) a registration), together with the shape of the destructor (releases self.id / only under an ownership flag the constructor sets); for EVERY step list that passes the boolean ctor_ok, after every history of constructor calls with arbitrary desired IDs that complete or raise at any step that can raise, and of destructor calls of complete and half-built objects at any later time, the complete objects that exist have pairwise distinct positive IDs handed out to them (c08_failed_constructors_unique); the shape of seeded fault c08_8 / of the Solid class of the pinned tree (raw store, converter, registration, unguarded destructor) is refuted by a computed witness (brush IDs 1, 2, 2), and so is copy.copy() left to the default protocol (1, 1). The premises (release sites, ID stores, map argument of every constructor/copy call inside copy() methods and collapse_one, every write into Entity._keys and into the fixup index table, node-ID shapes, fixup acceptance test / deferral / start index, hint guard, the program of VMF.parse, the map argument of every constructor call in helpers such as make_prism, the manager class chosen when preserve_ids is false) are regenerated from the source on every run by a fail-closed translator that normalises names, test spellings, branch order, single-use locals, helper functions and loop forms, and are kernel-checked; IDMan, EntityFixup histories, the entity lifecycle, three-map histories of entities/brushes/faces/brush groups/visgroups (per kind and as bundled events), node-ID histories in one map and over three maps (with the real collapse_one) and VMF.parse results are compared with the models on random inputs (exact IDs); the half-built objects that junk constructor arguments and corrupted parse blocks really leave behind (found through the traceback: id slot set? registered by this call? flag? released when it died?) must be states of the step list read from the source; constructor and parse calls that fail on maps whose live objects hold the requested IDs (every class, every parameter with junk values, every leaf of an exported block corrupted or removed, the half-built object dropped at once or kept alive by the exception for a while) and copy.copy() of live objects are followed by allocations and a scan; histories over all ID kinds including collapse_one (visgroup False / True / a VisGroup), make_prism / make_hollow and maps that start as parsed documents (world id 1, small colliding IDs) are searched on real VMF objects, the worldspawn included in every entity scan, with a full gc.collect() at every step boundary.',
+    note='Trusted: Coq kernel + vm_compute, translate/c08_sites.py, c08_keys.py, c08_norm.py (which call sites matter: copy() methods of the five ID classes and collapse_one; other functions that build objects from a foreign map are not in the census), hand models SM/IdMan.v, SM/IdLife.v, SM/IdFixupHist.v, SM/IdWorld.v, SM/IdNest.v, SM/IdNode.v, SM/IdNodeMaps.v (tied by differential runs), CPython refcount/gc for __del__ timing (observed, not assumed, for the placeholder worldspawn of VMF.parse: weak references record at which constructor call it is gone; a full collection runs at every step boundary of the histories). Brush groups and visgroups are independent single-kind models (each class uses the manager of its kind: census obligation); their IDs are never released (no destructor: leak, modelled as such). collapse_one is an event of the nested model (which brushes and entities it copies, in which order, is computed by the model and compared with the real function; hidden objects, visgroup handling and the keyvalue rewriting are searched, not modelled). Node IDs reserved by Instance.fixup_key are never released (a leak; modelled as the events NReserve / MReserve and compared). In the several-maps node model a nodeid key is a node ID for the entity classes whose FGD type says so (the correspondence sets it on info_node only). The deprecated Entity.keys dict (returned by reference) and a table handed to EntityFixup.__setstate__ bypass the censuses (listed as exposures). Round 5: translate/c08_ctor.py is trusted for which statements of a constructor can raise (everything except `self.x = <name or constant>`; converters, validators, non-constant factories, on_setattr hooks) and for the order in which attrs runs them (tied to reality only through the observed half-built states); get_id itself is taken not to raise; the destructor of a half-built object is modelled as running at any later time (the traceback keeps it alive), an unset slot makes it raise AttributeError, which CPython ignores. Objects created behind the back of the constructor other than by copy.copy() (object.__new__, a hand-made __setstate__) are not covered; pickling a whole map recreates the managers together with the objects and is consistent. Maps opened with preserve_ids=True are exempt by definition: they use NullIDMan, which hands desired IDs out without looking; C08 assumes NullIDMan is used for nothing else, and the census obligation maps_get_idman_unless_preserve_ids checks that VMF.__init__ gives all six managers the class IDMan when preserve_ids is false, that it defaults to False in VMF.__init__ and VMF.parse and that parse hands its parameter on. A stage in which the implementation loops or raises ends as a VIOLATION with the stage and seed as replay (alarm timer around every stage).',
 )
 
 IMPORTS = ['SV.SM.IdMan', 'SV.SM.IdManSpec', 'SV.SM.IdLife', 'SV.SM.IdFixupHist', 'SV.SM.IdWorld', 'SV.SM.IdNest', 'SV.SM.IdNode', 'SV.SM.IdNodeMaps', 'SV.SM.IdCtor', 'SV.Gen.IdSites_gen', 'SV.Props.C08',
@@ -2317,7 +2317,7 @@ def corr_ctor(ck: Ck, rows: list[dict]):
         return
     bad = [(cls, lst[i], obs[cls][lst[i]]) for (kind, cls, lst), idxs in zip(order, res) for i in idxs]
     n_states = sum(len(l) for _, _, l in order)
-    ck.obligation('correspondence:ctor-failure-states', not bad and n_states >= 3,
+    ck.obligation('correspondence:ctor-failure-states', not bad and n_states >= 2,
                   f'{n_calls} junk / corrupted constructor and parse calls, {n_states} distinct (class, id slot set, registered, flag, released) states of half-built '
                   f'objects, each must be a state of the step list read from the source and released as its destructor shape says: {len(bad)} disagreements')
     ck.extra['half_built_states'] = {cls: [{'id_set': o[0], 'registered': o[1], 'owned': o[2], 'released_on_death': o[3], 'example': obs[cls][o]} for o in lst]
@@ -2430,15 +2430,23 @@ def run(ck: Ck) -> None:
                'init lists with colliding/non-positive indexes followed by set/setdefault/update, del/pop, clear, Entity.copy rebuilds and '
                'copy/deepcopy/pickle, directly or through an Entity, non-trivial = at least two variables left (thorough: in addition every constructor '
                'argument of up to 2 values followed by every sequence of up to 2 operations, and of 3 values followed by at most one); '
+               'failed constructors: every constructor parameter of the five ID classes x 6 junk values and every leaf of the exported block of a live object x 6 junk texts / removed '
+               '(through cls.parse), requested ID = ID of a live object, exception dropped at once or kept across allocations, then new objects of every kind and a scan; copy.copy() of '
+               'live objects; non-trivial = at least one call of the group raised; '
                'distinct by full sequence / text')
     ck.trusted.append('hand-written models SM/IdMan.v, SM/IdLife.v, SM/IdFixupHist.v, SM/IdWorld.v, SM/IdNest.v, SM/IdNode.v, SM/IdNodeMaps.v (tied by differential correspondence on every run)')
     ck.trusted.append('translate/c08_parse.py (which statements of VMF.parse touch entity / brush / face IDs; constructor calls spelled through a module attribute are not in the helper census)')
+    ck.trusted.append('translate/c08_ctor.py (which steps of a constructor can raise, the order in which the attrs-generated __init__ runs stores / converters / validators / '
+                      '__attrs_post_init__; tied to the attrs library only through the observed states of half-built objects); hand model SM/IdCtor.v')
+    ck.assumptions.append('IDMan.get_id does not raise; objects come into being only through the constructor or copy.copy() (not object.__new__ / a hand-made __setstate__)')
     ck.assumptions.append('NullIDMan is used only for maps opened with preserve_ids=True (census obligation maps_get_idman_unless_preserve_ids); such maps are exempt')
     ck.assumptions.append('objects are added to the map they were constructed for (VMF.add_ent docstring); Entity._keys is only written through the mapping API')
     ok_t = ck.translate('IdSites_gen', c08_sites.translate)
     side = ck.extra.get('translated', {}).get('IdSites_gen', {})
     built = ok_t and ck.build(['Props/C08.vo'])
     th = None
+    ctor_only = False
+    failed: list[str] = []
     if built:
         # Print Assumptions of every statement of Props/C08.v takes a coqc process of its own (10-20 s on a loaded machine): it runs in
         # a worker thread on a copy of `ck` with lists of its own, merged below at the position where the results belong.  The instance
@@ -2483,7 +2491,11 @@ def run(ck: Ck) -> None:
         })
         prog = [r[0] for r in side.get('parse_program', [])] or None
         failed = sorted(n for n, ok in res.items() if not ok)
-        if failed:      # a premise of the theorems does not hold on this tree: search with the large budgets from the first stage on
+        # a premise of the theorems does not hold on this tree: search with the large budgets from the first stage on -- unless only the
+        # constructor-failure / copy-module premises failed: their search stage is exhaustive over its family with any budget, so the other
+        # stages keep their budgets and are escalated (second pass below) only if that stage finds no failing input
+        ctor_only = bool(failed) and all('constructor' in n or 'copy_module' in n for n in failed)
+        if failed and not ctor_only:
             ck.tie_broken.append('instance obligations: ' + ', '.join(failed))
         ror = any(r[0] == 'KEnt' and r[1] != 'SDel' for r in side.get('releases', []))
         stages = [('idman', corr_idman, ()), ('fixup', corr_fixups, (bool(side.get('fixup_init_requires_positive')), bool(side.get('fixup_init_defers', True)))),
@@ -2503,6 +2515,8 @@ def run(ck: Ck) -> None:
     for stage, gen, fut in _pending:
         guarded(ck, stage, None, resume=(gen, fut))
     del _pending[:]
+    if built and ctor_only and not any('-after-failed-' in v['key'] or '-after-copy-module-copy' in v['key'] for v in ck.violations):
+        ck.tie_broken.append('instance obligations: ' + ', '.join(failed))
     if built and ck.tie_broken and not escalated_from_start and not _hung:
         # a correspondence disagrees, and its verdict came after every stage had generated its cases with the small budgets (the Coq
         # evaluations run in the background): once more, one stage after the other, with the large budgets a broken tie gets --
@@ -2558,6 +2572,7 @@ def run(ck: Ck) -> None:
             ck.explain(f'instance:{name}_constructor_failure_releases_only_its_own_id')
             ck.explain('instance:constructors_fail_safely')
             ck.explain('correspondence:ctor-failure-states')
+            ck.explain('instance:every_id_store_is_a_get_id_result')      # a raw store to .id in a constructor is what the replay needs
     if has('-after-copy-module-copy'):
         ck.explain('instance:copy_module_copies_go_through_copy')
     if has('parse-') or has('-after-parse'):
